@@ -558,7 +558,7 @@ pub fn explore(cfg: &Config, sym: &dyn Fn(), native: Option<&dyn Fn()>) -> Repor
             if let (Some(nat), None) = (native, &out.abort) {
                 if out.panic_msg.is_none() {
                     let o2 = run_once(false, &inputs_used, nat);
-                    if o2.arena.observations == a.observations && o2.panic_msg.is_none() {
+                    if same_observations(&o2.arena.observations, &a.observations) && o2.panic_msg.is_none() {
                         rep.witness_validated += 1;
                     } else {
                         rep.witness_mismatch += 1;
@@ -682,6 +682,25 @@ impl Report {
 
 /// domain /\ not(pc_1 \/ ... \/ pc_n) must be unsatisfiable: every input of the domain follows one of the
 /// explored paths.  Decided in a fresh solver process, independently of the incremental contexts used above.
+/// Outputs of the native run against the shadow values of the symbolic run: bit for bit, unless SYMX_OBS_RELTOL is set
+/// (harnesses whose code multiplies 2-D arrays: ndarray uses matrixmultiply's FMA kernels for f64 and plain loops for
+/// any other scalar, which differ in the last bits).  Then normal floating-point values may differ by that relative
+/// amount; everything else (integers recorded by observe_usize are subnormal bit patterns, zeros, NaN) stays exact.
+fn same_observations(native: &[u64], shadow: &[u64]) -> bool {
+    static TOL: std::sync::OnceLock<f64> = std::sync::OnceLock::new();
+    let tol = *TOL.get_or_init(|| std::env::var("SYMX_OBS_RELTOL").ok().and_then(|v| v.parse().ok()).unwrap_or(0.0));
+    if native.len() != shadow.len() {
+        return false;
+    }
+    native.iter().zip(shadow.iter()).all(|(x, y)| {
+        if x == y {
+            return true;
+        }
+        let (a, b) = (f64::from_bits(*x), f64::from_bits(*y));
+        tol > 0.0 && a.is_normal() && b.is_normal() && (a - b).abs() <= tol * (1.0 + a.abs().max(b.abs()))
+    })
+}
+
 pub fn trace_hash(a: &crate::arena::Arena) -> u64 {
     let mut h = 0u64;
     for ev in &a.trace {
